@@ -369,7 +369,7 @@ func Run(runIdx int, p *prog.Program, sch *Schedule, o Options) []Rec {
 	defs := o.Defs
 	if defs == nil {
 		var err error
-		defs, err = render.Definitions(p, render.Options{Lang: o.Lang})
+		defs, err = render.Definitions(p, render.Options{Lang: o.Lang, Rich: o.RoundTrip})
 		if err != nil {
 			r.add(Rec{Ev: "infra", Kind: "parse: " + err.Error()})
 			return r.log
@@ -377,7 +377,7 @@ func Run(runIdx int, p *prog.Program, sch *Schedule, o Options) []Rec {
 	}
 	var rtRec *Rec
 	if o.RoundTrip {
-		defs2, rec := RoundTrip(defs, render.XML(p, render.Options{Lang: o.Lang}))
+		defs2, rec := RoundTrip(defs, render.XML(p, render.Options{Lang: o.Lang, Rich: true}))
 		rtRec = &rec
 		if defs2 != nil {
 			defs = defs2
